@@ -25,7 +25,7 @@ type NodePlan struct {
 
 // Step is one step of the script after the call has been issued.
 type Step struct {
-	// Op: answer (open the gate of Node) | cancel | stop (stop server Node) | bg (issue background call Node) | sleep
+	// Op: answer (open the gate of Node) | cancel | stop (stop server Node) | partition (cut the connections to server Node and let new attempts hang) | bg (issue background call Node) | sleep
 	Op   string `json:"op"`
 	Node int    `json:"node,omitempty"`
 	Us   int    `json:"us,omitempty"`
@@ -88,6 +88,7 @@ func Run(c Case) Result {
 	}
 	defer func() {
 		cl.OpenAll()
+		cl.Fab.UnblockAll()
 		for _, call := range client.Calls() {
 			call.Cancel()
 		}
@@ -269,6 +270,14 @@ func Run(c Case) Result {
 			if !stopped[s] && cl.Up(s) {
 				stopped[s] = true
 				cl.Stop(s)
+				time.Sleep(400 * time.Microsecond)
+			}
+		case "partition":
+			// the node's host stops answering: the connection breaks and new attempts hang
+			s := st.Node
+			if !stopped[s] && cl.Up(s) {
+				stopped[s] = true
+				cl.Partition(s)
 				time.Sleep(400 * time.Microsecond)
 			}
 		case "bg":
